@@ -253,6 +253,34 @@ def lrp : P String := do
   let v := v.failIf (samp.any (fun (_, x) => decide (last.getD x 0 ≤ 0))) s!"{comp} sample_zero_prob"
   return v.render
 
+
+/-- `lrpv`: an LRP history whose learning parameters are changed on the live object between updates (per-operation a, b as in
+    `lrp_row_invariant`); every row, the getters' read-back of the parameters and the samples from the last row -/
+def lrpv : P String := do
+  let comp ← P.tok; let n ← P.nat; let k ← P.nat
+  let ops ← P.rep (do let a ← P.q; let b ← P.q; let act ← P.nat; let r ← P.bool; pure (a, b, act, r)) k; P.bar
+  let row0 ← P.rep P.q n
+  let rows ← P.rep (do let row ← P.rep P.q n; let ga ← P.q; let gb ← P.q; pure (row, ga, gb)) k
+  let ns ← P.nat
+  let samp ← P.rep (do let u ← P.q; let x ← P.nat; pure (u, x)) ns
+  P.eof
+  let v : Verdict := { tag := if k ≤ 1 then "lrpv trivial" else "lrpv" }
+  let v := v.diffIf (!(closeL (tab n (lrpInit n)) row0)) s!"{comp} ctor"
+  let (v, _) := (ops.zip rows).foldl (fun (v, p) ((a, b, act, r), (row, ga, gb)) =>
+      let p' := tab n (lrpStep n a b act r (fn p))
+      let v := v.diffIf (!(closeL p' row)) s!"{comp} stepUpdateP_after_setters a={a} b={b} model={showL p'} impl={showL row}"
+      let v := v.failIf (!(closeQ tol ga a) || !(closeQ tol gb b)) s!"{comp} parameter_getter_ne_setter set=({a},{b}) get=({ga},{gb})"
+      (v, p')) (v, tab n (lrpInit n))
+  let allRows := row0 :: rows.map (·.1)
+  let last := (allRows.getLast?).getD row0
+  let v := samp.foldl (fun v (u, x) =>
+      let near := (List.range (n + 1)).any (fun j => closeQ tol (sumTo j (fn last)) u)
+      v.diffIf (!near && sampleRow (fn last) n u != x) s!"{comp} sampleAction model={sampleRow (fn last) n u} impl={x}") v
+  let v := rowsCheck v comp allRows
+  let v := v.failIf (samp.any (fun (_, x) => x ≥ n)) s!"{comp} sample_out_of_range"
+  let v := v.failIf (samp.any (fun (_, x) => decide (last.getD x 0 ≤ 0))) s!"{comp} sample_zero_prob"
+  return v.render
+
 def setNth {α} (l : List α) (i : Nat) (x : α) : List α := l.set i x
 
 def wolf : P String := do
@@ -506,6 +534,7 @@ def handle (toks : List String) : String :=
     | "eps" :: rest => P.run eps rest
     | "shift" :: rest => P.run shift rest
     | "lrp" :: rest => P.run lrp rest
+    | "lrpv" :: rest => P.run lrpv rest
     | "wolf" :: rest => P.run wolf rest
     | "pgaapp" :: rest => P.run pgaapp rest
     | "thompson" :: rest => P.run thompson rest
